@@ -162,6 +162,7 @@ PROPS["C04"]["tables"] = ["unit-multipliers"]      # a compiled value that diffe
 
 # theorem modules about Lean text GENERATED from C functions: obligations whenever the translator accepts the current source
 PROPS["C10"]["generated"] = [{"module": "ScpiVerif.Props.C10Gen", "section": "fifo_c"}]
+PROPS["C06"]["generated"] = [{"module": "ScpiVerif.Props.C06Gen", "section": "result_c"}]
 
 NOT_CLAIMED = {}
 
